@@ -20,6 +20,7 @@ import facts as fm
 import expr
 from facts import Terms, show, calls_in, leaves, enum_switches
 import vcc
+import c01
 
 DEC = "simplicity::bit_encoding::decode::"
 CONSTRUCT_DECODE = "simplicity::node::construct::<impl simplicity::node::Node<simplicity::node::construct::Construct<'brand>>>::decode"
@@ -64,6 +65,7 @@ def req_pass(rep, fn, label, pred, consumed=True, want_args=None):
     return sites
 
 
+DN_NAME = ["decode_node"]    # the name of the node decoder on the analysed tree (see c01.decode_node_fn), set in run()
 VOCAB = ("decode_expression", "decode_node", "close", "read_natural", "finalize_types", "is_shared_as", "with_context", "convert",
          "set_arrow_to_program", "from_bits", "read_bit", "read_u2", "read_u8")
 
@@ -202,7 +204,11 @@ def _closures_in(t, out=None):
     return out
 
 def run(ctx, rep):
+    global VOCAB
     F = ctx.facts("full")
+    dnf = c01.decode_node_fn(F)
+    DN_NAME[0] = dnf.name if dnf is not None else "decode_node"
+    VOCAB = tuple(x for x in VOCAB if x != DN_NAME[0]) + (DN_NAME[0],)
     rep.rule("C02.must", "canonicity checks lie on every success path and their verdicts are consumed")
     rep.rule("C02.bound", "decoded indices/lengths are guarded by the matching bound before arithmetic")
     rep.rule("C02.alloc", "allocations sized by decoded numbers or type widths are clamped")
@@ -303,7 +309,7 @@ def run(ctx, rep):
             else:
                 # inside the Hidden arm of the DecodeNode switch
                 inarm = False
-                for b, si in enum_switches(de, "decode::DecodeNode"):
+                for b, si in enum_switches(de, "::DecodeNode"):
                     tgt = si[2].get("Hidden")
                     if tgt is not None and cs.bb in de.dominated_by(tgt):
                         inarm = True
@@ -312,7 +318,7 @@ def run(ctx, rep):
                 else:
                     rep.violation("C02.must", "decode_expression:hidden-arm", "hidden_set.insert is not in the Hidden arm", cs.where())
         # (3) every node is decoded at its own index
-        dn = [cs for cs in de.calls() if cs.name == "decode_node"]
+        dn = [cs for cs in de.calls() if cs.name == DN_NAME[0]]
         if len(dn) == 1 and "len" in [c[2] for c in calls_in(Td.operand(dn[0].args[1]))]:
             rep.ok("C02.must", "decode_expression: decode_node(bits, nodes.len())", None)
         elif len(dn) == 1 and _counts_pushes(de, Td, dn[0]):
@@ -358,8 +364,8 @@ def run(ctx, rep):
             rep.violation("C02.must", "close:padding", "close() does not reject non-zero padding bits before returning Ok", cl.where())
 
     # ------------------------------------------------------------------ bound
-    dn = F.fn(DEC + "decode_node")
-    dn = F.inlined(dn, VOCAB) if dn is not None else None   # private same-file helpers are spliced in
+    dn = c01.decode_node_fn(F)
+    dn = F.inlined(dn, VOCAB + (dn.name,)) if dn is not None else None   # private same-file helpers are spliced in
     if dn is None:
         rep.anchor("C02.bound", DEC + "decode_node")
     else:
@@ -527,7 +533,7 @@ def _counts_pushes(de, Td, dn):
     if rng.get("start") != ("int", 0, "usize"):
         return False
     pushes = [c for c in de.calls() if c.name == "push" and c.bb in de.reachable(dn.bb) and dn.bb in de.reachable(c.bb)]
-    if len(pushes) != 1 or not any(c[2] == "decode_node" for c in calls_in(Td.operand(pushes[0].args[1]))):
+    if len(pushes) != 1 or not any(c[2] == DN_NAME[0] for c in calls_in(Td.operand(pushes[0].args[1]))):
         return False
     avoid = {pushes[0].bb} | flow.error_blocks(de)
     for s_ in de.succs(dn.bb):
@@ -538,7 +544,7 @@ def _counts_pushes(de, Td, dn):
 
 def _after_node_loop(f, cs):
     """the allocation happens after the loop that calls decode_node"""
-    dn = [c for c in f.calls() if c.name == "decode_node"]
+    dn = [c for c in f.calls() if c.name == DN_NAME[0]]
     if not dn:
         return False
     return cs.bb in f.reachable(dn[0].bb) and not f.in_loop(cs.bb) and f.in_loop(dn[0].bb)
